@@ -65,6 +65,11 @@ def work_contract(job):
         import contracts.spec as _S
         eng.ghost_defs = _S.ghost_defs
         c = [x for x in R.all() if x.id == cid][0]
+        if c.key not in eng.repo.funcs:
+            rec['unsupported'] = f'function {c.key} not found in the working tree'
+            rec['props'] = list(c.props)
+            rec['wall_s'] = time.time() - t0
+            return rec
         fi = eng.repo.func(c.key)
         rec.update({'key': c.key, 'sha256': fi.sha256(), 'lines': list(fi.lines()), 'props': list(c.props), 'note': c.note,
                     'assume_only': c.assume_only})
@@ -83,7 +88,7 @@ def work_contract(job):
             orec = {'name': o.name, 'kind': o.kind, 'status': d['status'], 'backend': d['backend'], 'seconds': round(d['seconds'], 4),
                     'quantified': d['quantified'], 'path': o.path_id, 'props': props_of_obl(o.name, c.props), 'size': o.size(),
                     'lineno': o.lineno, 'cvc5': d.get('cvc5')}
-            if d['status'] == 'unknown' and d.get('candidate_model') is not None and o.kind in ('post', 'inv_pres', 'inv_entry', 'frame', 'raise', 'pre', 'assert'):
+            if d['status'] == 'unknown' and d.get('candidate_model') is not None and not c.opts.get('no_model_replay') and o.kind in ('post', 'inv_pres', 'inv_entry', 'frame', 'raise', 'pre', 'assert'):
                 # candidate counter-model: believed only if the input it describes makes the real code break the contract
                 try:
                     w = rp.make_witness(eng, c, o.info['args'], o.info['pre'], d['candidate_model'])
@@ -99,7 +104,7 @@ def work_contract(job):
                     orec['candidate_replay'] = {'verdict': 'error', 'detail': f'{type(e).__name__}: {e}'}
             if d['status'] == 'refuted' and d['model'] is not None:
                 orec['model'] = str(d['model'])[:3000]
-                if o.kind in ('post', 'raise', 'frame', 'assert', 'safety', 'inv_pres', 'inv_entry', 'pre', 'decreases'):
+                if o.kind in ('post', 'raise', 'frame', 'assert', 'safety', 'inv_pres', 'inv_entry', 'pre', 'decreases') and not c.opts.get('no_model_replay'):
                     try:
                         w = rp.make_witness(eng, c, o.info['args'], o.info['pre'], d['model'])
                         orec['witness'] = w
